@@ -59,6 +59,8 @@ type Tokenizer struct {
 	str              string
 	isLast           bool
 	last             rune
+	lastStr          string // input at the cached rune `last`, to read it again
+	lastSkip         bool   // `last` was read with comment skipping
 	tok              chan Token
 	tokenAvail       int
 	token            [2]Token
@@ -331,8 +333,14 @@ func (t *Tokenizer) parseOperator() (string, bool) {
 
 func (t *Tokenizer) peek(skipComment bool) rune {
 	if t.isLast {
-		return t.last
+		if t.lastSkip || !skipComment {
+			return t.last
+		}
+		// cached by a look-ahead that did not handle comments: read it again
+		t.str = t.lastStr
+		t.isLast = false
 	}
+	t.lastStr, t.lastSkip = t.str, skipComment
 	if len(t.str) == 0 {
 		t.last = EOF
 		return EOF
@@ -341,7 +349,7 @@ func (t *Tokenizer) peek(skipComment bool) rune {
 	t.last, size = utf8.DecodeRuneInString(t.str)
 
 	if t.allowComments && skipComment {
-		if t.last == '/' && len(t.str) > size {
+		for t.last == '/' && len(t.str) > size {
 			s, l := utf8.DecodeRuneInString(t.str[size:])
 			if s == '/' {
 				t.str = t.str[size+l:]
@@ -383,6 +391,8 @@ func (t *Tokenizer) peek(skipComment bool) rune {
 					}
 				}
 				t.last, size = utf8.DecodeRuneInString(t.str)
+			} else {
+				break
 			}
 		}
 	}
@@ -423,7 +433,8 @@ func (t *Tokenizer) next(skipComment bool) rune {
 }
 
 func (t *Tokenizer) read(valid func(c rune) bool) string {
-	return t.readSkip(valid, true)
+	// a comment ends the token: it is skipped when the rune after the token is read again
+	return t.readSkip(valid, false)
 }
 
 func (t *Tokenizer) readSkip(valid func(c rune) bool, skipComment bool) string {
